@@ -138,8 +138,11 @@ func (q *ConvexHullQuery) CapBound() Cap {
 // adding to the query and call this method again.
 func (q *ConvexHullQuery) ConvexHull() *Loop {
 	c := q.CapBound()
-	if c.Height() >= 1 {
-		// The bounding cap is not convex. The current bounding cap
+	if c.Height() >= 1-10*dblError {
+		// The bounding cap is not convex (or is a hemisphere within rounding:
+		// the comparison needs a margin, because "origin" below is only known to
+		// be outside the hull when the cap is strictly smaller than a hemisphere
+		// and the cap itself is computed with rounding error). The current bounding cap
 		// implementation is not optimal, but nevertheless it is likely that the
 		// input geometry itself is not contained by any convex polygon. In any
 		// case, we need a convex bounding cap to proceed with the algorithm below
